@@ -317,7 +317,7 @@ package keeper
 // Requests and responses (C08: exactly one outcome per request; C07: the fee goes to the provider)
 
 //@ family requests   key types.GetRequestKey value types.CompactRequest
-//@ family contexts   key types.GetRequestContextKey value types.RequestContext
+//@ family contexts   key types.GetRequestContextKey value types.RequestContext slice 1:=0 prefix global:types.RequestContextKey
 // a request id is its context id followed by batch counter, height and index (types.GenerateRequestID); the walk over the
 // active requests of one batch selects the ids with that context id and counter (projections REQCTX / REQBATCH)
 //@ define REQCTX(r) = ufbytes("req_ctx", r)
@@ -593,7 +593,10 @@ package keeper
 //@   ensures ledger_frame: forall a:Bytes :: forall d:Str :: (a != DEP && a != FEECOL) || d != BASE ==> bal(a, d) == old(bal(a, d))
 //@   ensures keeps_nonneg: forall s:Str :: forall p:Bytes :: forall d:Str :: has(bindings, s, p) ==> amt(BIND(s, p).Deposit, d) >= 0
 //@   lemma @return depUpd(old(bindings), svc, prov, BIND(svc, prov)) if err == nil
-//@   ensures deposit_inv: wf && err == nil && old(depositInv) ==> depositInv
+// the end blocker ignores the error of a slash and nothing rolls a block back: a slash that reports an error has moved
+// nothing and recorded nothing, so the escrow matches the recorded deposits on every path
+//@   ensures rejected:    err != nil ==> bal == old(bal) && bindings == old(bindings)
+//@   ensures deposit_inv: wf && old(depositInv) ==> depositInv
 //@   ensures keeps_priced: pricingsWF
 //@   by keeps_priced: req
 // no slash fraction and base denomination accepted by parameter validation may make this abort (C16; it runs in the end blocker, C13)
@@ -744,6 +747,24 @@ package keeper
 //@   nopanic C13
 //@ end
 
+// A batch that cannot be issued (no eligible provider, too few for the threshold, no exchange rate) is skipped: it takes
+// its slot in the schedule - counter advanced, expiration queued at height + timeout - and stays OPEN (running, no
+// requests, no responses) until that expiration, where the batch is completed and the owning module's callback fires
+// exactly once, without outputs (C08). A skipped batch recorded as completed would never be reported.
+//@ func Keeper.SkipCurrentRequestBatch(ctx, requestContextID, requestContext)
+//@   property C08, C13
+//@   requires height >= 0
+//@   modifies contexts, expBatch, expBatchH
+//@   ensures skipped_open: has(contexts, requestContextID) && CTX(requestContextID).BatchCounter == (requestContext.BatchCounter + 1) mod 18446744073709551616
+//@                         && CTX(requestContextID).BatchState == types.BATCHRUNNING && CTX(requestContextID).BatchRequestCount == 0
+//@                         && CTX(requestContextID).BatchResponseCount == 0 && CTX(requestContextID).BatchResponseThreshold == requestContext.ResponseThreshold
+//@                         && CTX(requestContextID).State == requestContext.State && CTX(requestContextID).Consumer == requestContext.Consumer
+// its expiration entry (which carries the context id, as every queue entry does) is the only change to the queue
+//@   ensures expiry_queued: expBatch == set(old(expBatch), requestContextID, wrapi64(height + requestContext.Timeout), BV(requestContextID))
+//@   ensures others_kept: forall i:Bytes :: i != requestContextID ==> has(contexts, i) == old(has(contexts, i)) && CTX(i) == old(CTX(i))
+//@   nopanic C13
+//@ end
+
 // pausing a context for lack of funds: the context record is rewritten and the owning module (if any) is told through its
 // registered state callback (A-CALLBACK: a callback is registered for every module name stored in a context - checked
 // when the context is created - and does not touch this module's store or escrow accounts)
@@ -754,4 +775,24 @@ package keeper
 //@   ensures paused: requestContext.State == types.PAUSED && requestContext.BatchState == types.BATCHCOMPLETED
 //@   ensures stored: contexts == set(old(contexts), requestContextID, requestContext)
 //@   nopanic
+//@ end
+
+// Zero-height preparation, last step (C12): EVERY stored request context - running or already paused, in whatever batch
+// state - is left paused with its batch completed and its batch counters cleared, which is the only shape of a context
+// that genesis validation accepts on the restarted chain; identity, schedule and consumer are kept.
+//@ func Keeper.ResetRequestContextsStateAndBatch(ctx)
+//@   property C08, C12
+//@   returns err
+//@   modifies contexts
+//@   invariant @IterateRequestContexts #1 pos:  0 <= it_idx && it_idx <= it_n
+//@   invariant @IterateRequestContexts #1 done: forall j:Int :: 0 <= j && j < it_idx ==> has(contexts, it_seq[j]) && CTX(it_seq[j]).State == types.PAUSED
+//@                                                 && CTX(it_seq[j]).BatchState == types.BATCHCOMPLETED && CTX(it_seq[j]).BatchRequestCount == 0 && CTX(it_seq[j]).BatchResponseCount == 0
+//@                                                 && CTX(it_seq[j]).Consumer == old(CTX(it_seq[j])).Consumer && CTX(it_seq[j]).ServiceName == old(CTX(it_seq[j])).ServiceName
+//@                                                 && CTX(it_seq[j]).BatchCounter == old(CTX(it_seq[j])).BatchCounter
+//@   invariant @IterateRequestContexts #1 todo: forall j:Int :: it_idx <= j && j < it_n ==> has(contexts, it_seq[j]) && CTX(it_seq[j]) == old(CTX(it_seq[j]))
+//@   invariant @IterateRequestContexts #1 same: forall i:Bytes :: has(contexts, i) == old(has(contexts, i))
+//@   ensures all_reset: err == nil && (forall i:Bytes :: has(contexts, i) ==> CTX(i).State == types.PAUSED && CTX(i).BatchState == types.BATCHCOMPLETED
+//@                         && CTX(i).BatchRequestCount == 0 && CTX(i).BatchResponseCount == 0
+//@                         && CTX(i).Consumer == old(CTX(i)).Consumer && CTX(i).ServiceName == old(CTX(i)).ServiceName && CTX(i).BatchCounter == old(CTX(i)).BatchCounter)
+//@   ensures none_lost: forall i:Bytes :: has(contexts, i) == old(has(contexts, i))
 //@ end
